@@ -19,6 +19,9 @@ import (
 // overlayFromPatch applies a unified diff to copies of the files it touches
 // and returns an overlay (absolute /repo path -> patched content).
 func overlayFromPatch(repo, patch string) (map[string][]byte, error) {
+	if abs, err := filepath.Abs(patch); err == nil {
+		patch = abs
+	}
 	data, err := os.ReadFile(patch)
 	if err != nil {
 		return nil, err
